@@ -24,7 +24,7 @@ type c01 struct {
 	rec *evi.Recorder
 	rt  *rapid.T // nil in the deterministic sweep
 	g   *Gen
-	cmp int // comparisons made in this evaluation
+	cmp int    // comparisons made in this evaluation
 	pfx string // key prefix of a check family ("" = fresh-receiver decode)
 }
 
